@@ -200,6 +200,12 @@ impl BlteFile {
             // Single chunk
             Self::single_chunk(data.to_vec(), mode)
         } else {
+            if chunk_size == 0 {
+                // a zero chunk size never advances through the data
+                return Err(BlteError::InvalidChunk(
+                    "chunk size must not be zero".to_string(),
+                ));
+            }
             // Multi-chunk
             let mut chunks = Vec::new();
             let mut offset = 0;
